@@ -343,6 +343,8 @@ where
                 }
 
                 // Otherwise further checking is applicable.
+                #[cfg(getong_stateright_verif)]
+                crate::verif_hooks::yield_point("bfs.after_arbitration");
                 is_terminal = false;
                 pending.push_front((
                     next_state,
